@@ -607,7 +607,19 @@ def _call_rf(ctx, x, memo, pending):
                     if rf_equal(y * ck, xx * sk):
                         ctx.assumptions.append("atan2(k sin b, k cos b) = b for k > 0, b in (-pi, pi]")
                         return RF(info["base"].scale(info["c0"] * k))
-        i = ctx.atom(("node", x.id), "at%d" % x.id)
+        def rfkey(r):
+            return ("p", _poly_key(r.n)) if r.d is None else ("q", _poly_key(r.n), _poly_key(r.d))
+        # atan2(0, x) for x > 0
+        if y.n.is_zero_mod():
+            xc = xx.n.reduce(full=True).const_value() if xx.d is None else None
+            if xc is not None and xc > 0:
+                ctx.assumptions.append("atan2(0, x) = 0 for x > 0")
+                return RF(ctx.const_lp(0))
+        try:
+            akey = ("atan2", rfkey(y), rfkey(xx))
+        except Exception:
+            akey = ("node", x.id)
+        i = ctx.atom(akey, "at%d" % x.id)
         ctx.atan2s[i] = (y, xx)
         if y.d is None and y.n.single_term():
             (m_, c_), = y.n.t.items()
